@@ -10,7 +10,10 @@
 (*   ys, xs  its coordinates (distinct integers)                                           *)
 (*   scan    <<top, bottom, left, right>> returned by the compiled _trim / _crop driven    *)
 (*           directly on the same arrays                                                   *)
-(*   out     the returned DataArray: [h, w, cells, ys, xs, attrs_ok, dims_ok]     *)
+(*   out     the returned DataArray: [h, w, cells, ys, xs, attrs_ok, dims_ok, other_coords_ok]   *)
+(*           attrs_ok / other_coords_ok: attrs equal those of the sliced raster; its scalar and    *)
+(*           non-index coordinates are still attached (sliced alike) and nothing else is.  For     *)
+(*           crop the sliced raster is `values`; the zones raster has OTHER coordinates and attrs. *)
 (* The window the property asks for is Box of the kept cells with NaN excluded when listed *)
 (* (naneq = TRUE).  CODE_NANEQ only serves the step-level comparison (drift).              *)
 EXTENDS TrimCropOps, TLC, Json, IOUtils
@@ -37,6 +40,7 @@ Clause(c) ==
   ELSE
   LET box == Box(e) IN
   IF o.h = 0 \/ o.w = 0 THEN "window_misses_kept_cell"
+  ELSE IF Len(o.ys) # o.h \/ Len(o.xs) # o.w THEN "coords_not_of_the_original"     \* e.g. no coordinates at all
   ELSE
   LET t == Pos(c.ys, o.ys[1])
       b == Pos(c.ys, o.ys[Len(o.ys)])
@@ -49,6 +53,7 @@ Clause(c) ==
   ELSE IF ~IsMinimalWindow(e, t, b, l, r) THEN "window_not_minimal"
   ELSE IF <<t, b, l, r>> # box THEN "window_is_not_the_bounding_box"
   ELSE IF o.cells # SubGrid(c.cells, t, b, l, r) THEN "cells_changed"
+  ELSE IF ~o.other_coords_ok THEN "other_coordinates_not_those_of_the_original"
   ELSE IF ~o.attrs_ok THEN "attrs_changed"
   ELSE IF ~o.dims_ok THEN "dims_changed"
   ELSE "ok"
